@@ -19,7 +19,7 @@ func init() {
 	register(&Rule{ID: "R-NAMETOKEN", Floor: 5, Run: ruleNameToken,
 		Text: "Wherever the parser takes a name from the current token — a function's name, a parameter, a foreach variable or index, a local — that token was tested to be an identifier (current-token test, peek test followed by one advance, or a successful expectation) with no other advance in between; an illegal character or a literal in a name position is an error."})
 	register(&Rule{ID: "R-CONSTDEDUP", Floor: 1, Run: ruleConstDedup,
-		Text: "The constant pool merges two constants only when both their type and their printed form are equal: a string, a regexp, a float and a large integer that print alike stay distinct constants."})
+		Text: "The constant pool merges two constants only when both their type and their printed form are equal: a string, a regexp, a float and a large integer that print alike stay distinct constants.  A path of the pool function that hands out an existing index by other means than that comparison (an index keyed by something) is reported as undecided."})
 }
 
 // nameSink describes a store of token-derived data into a name position.
